@@ -19,6 +19,8 @@ def check(run):
     run.attempt(sqlq, run, p, sh)
     run.attempt(emptyjoin, run, p, sh)
     run.attempt(total, run, p, sh)
+    from . import rexpy_eval
+    run.attempt(rexpy_eval.hook_rule, run, p, 'C08')
     run.attempt(exc, run, p, sh)
     run.attempt(rexflags, run, p)
     run.attempt(readonly, run, p, roots)
